@@ -176,6 +176,27 @@ def check(run):
         third = ShellSpec(0, [x + 0.7 for x in pair[0].center], [core.rand_exp(rng, 0.3, 1.5)], [[1.0]])
         one_case(run, ([third] + pair) if k % 3 != 2 else (pair + [third]), eri=True)
         run.count("contracted tight+diffuse shells on well separated atoms (%g bohr)" % R_)
+    # generalized shells with l >= 1 (two or three columns): the quartets (aa|aa), (ab|ab) with identical pairs carry the diagonal of
+    # the pair matrix
+    for k in range(3 if quick else 12):
+        l1, l2 = [(1, 1), (1, 0), (1, 1), (2, 1), (1, 2), (1, 1)][k % 6]
+        s1 = rand_shell(rng, l1, [], nprim=2, nseg=2 + k % 2, sph=bool(k % 2), exp_lo=0.3, exp_hi=4.0).copy(via_update=False)
+        s2 = rand_shell(rng, l2, [], nprim=2, nseg=2 if l2 >= 1 else 1, sph=bool((k // 2) % 2), exp_lo=0.3, exp_hi=4.0).copy(
+            center=[core.snap(rng.uniform(-1.2, 1.2), 8) for _ in range(3)], via_update=False)
+        one_case(run, [s1, s2], eri=True)
+        run.count("generalized shells with l >= 1 (ERI pair matrix)")
+    # all-s bases of generalized shells with a 1s-like and a 2s-like column (coefficients of mixed sign: a radial node): contracted
+    # (ss|ss) integrals of either sign occur, and the pair matrix is a Gram matrix all the same
+    for k in range(6 if quick else 24):
+        specs = []
+        for i in range(3):
+            e1, e2 = core.rand_exp(rng, 2.0, 8.0), core.rand_exp(rng, 0.15, 0.6)
+            c = [core.snap(rng.uniform(-0.8, 0.8), 8) for _ in range(3)]
+            co = [[core.snap(rng.uniform(0.3, 1.0), 8), -core.snap(rng.uniform(0.2, 0.6), 8)],
+                  [core.snap(rng.uniform(0.2, 0.8), 8), core.snap(rng.uniform(0.6, 1.2), 8)]]
+            specs.append(ShellSpec(0, c, [e1, e2], co, sph=bool((i + k) % 2)))
+        one_case(run, specs, eri=True)
+        run.count("all-s generalized shells with a radial node")
     from checks.common import mutate_returned_spherical_objects
     mutate_returned_spherical_objects(3)
     one_case(run, [s_.copy(sph=True) for s_ in gen(rng, 3, 3, 0.3, 5.0, dependent=False, spread=1.0)])
